@@ -6,6 +6,7 @@ set -e
 cd /verif
 COV=${COVDIR:-/tmp/verif-cov.$$}
 mkdir -p $COV/prof
+export LLVM_PROFILE_FILE=$COV/prof/build-%p-%m.profraw   # build scripts of instrumented crates write profiles too: keep them out of /repo
 props=${@:-$(seq -f "C%02g" 1 20)}
 for p in $props; do VERIF_COVERAGE=$COV python3 check.py $p --tier quick 2>&1 | tail -1; done
 BIN=$(dirname $(rustc +nightly --print target-libdir))/bin
